@@ -356,6 +356,8 @@ def c04_r3(ctx, f, rid="C04.R3", only_outside=False):
     if dec is None:
         return
     res = geometry(ctx, f, {"blank", "format"})
+    if ctx.tier != "thorough":
+        ctx.subset(rid, "format writer evaluated on 168 of the 1280 (version, level, mask) cells (all in the thorough tier)")
     runs = 0
     groups = _Groups()
     und = _Und()
@@ -435,6 +437,8 @@ def c08_r4(ctx, f, tbl=None, rid="C08.R4"):
     discr = dict(f.enum_variants(MASK) or [])
     res = geometry(ctx, f, {"blank", "masks"})
     versions = _versions(ctx, "masks")
+    if len(versions) < 40:
+        ctx.subset(rid, "mask sweeps evaluated for versions %s of 40 (all 40 in the thorough tier)" % versions)
     runs = 0
     seen_callees = set()
     groups = _Groups()
@@ -539,6 +543,8 @@ def c01_r5(ctx, f, rid="C01.R5"):
         return
     res = geometry(ctx, f, {"blank", "place"})
     versions = _versions(ctx, "place")
+    if len(versions) < 40:
+        ctx.subset(rid, "placement evaluated for versions %s of 40 (all 40 in the thorough tier)" % versions)
     groups = _Groups()
     und = _Und()
     runs = 0
@@ -808,6 +814,8 @@ def c16_r3(ctx, f, rid="C16.R3"):
         return
     _G["facts"] = f
     versions = list(range(1, 41)) if ctx.tier == "thorough" else QUICK_TERM_VERSIONS
+    if len(versions) < 40:
+        ctx.subset(rid, "terminal renderer evaluated for versions %s of 40 (all 40 in the thorough tier)" % versions)
     mp = multiprocessing.get_context("fork")
     with mp.Pool(min(16, os.cpu_count() or 1)) as pool:
         res = pool.map(_term_job, sorted(versions, reverse=True), chunksize=1)
@@ -960,6 +968,8 @@ def c05_r3(ctx, f, rid="C05.R3"):
         return None
     _G["facts"] = f
     jobs = [(m, l) for m in ref.MODES for l in ref.LEVELS]
+    ctx.subset(rid, "outcome table at the lengths around every capacity threshold and a subset of forced versions (the thresholds "
+                    "themselves are decided for all lengths by C05.T1)")
     mp = multiprocessing.get_context("fork")
     with mp.Pool(min(12, os.cpu_count() or 1)) as pool:
         res = pool.map(_gate_job, jobs, chunksize=1)
@@ -1079,6 +1089,7 @@ def c18_r2(ctx, f, rid="C18.R2"):
         return
     _G["facts"] = f
     _G["frame_over_versions"] = {1, 2, 7, 20, 40} if ctx.tier != "thorough" else set(range(1, 41))
+    ctx.subset(rid, "default placement enumerated completely (40 x 3 x 17); real-valued size/gap/position overrides on a lattice only")
     mp = multiprocessing.get_context("fork")
     with mp.Pool(min(16, os.cpu_count() or 1)) as pool:
         res = pool.map(_frame_job, list(range(40, 0, -1)), chunksize=1)
@@ -1415,6 +1426,8 @@ def c06_r2(ctx, f, rid="C06.R2"):
         return None
     _G["facts"] = f
     cfgs = _encode_configs(ctx.tier)
+    ctx.subset(rid, "encoders evaluated on %d (mode, version, level, length) cells: a sample of lengths (all residues, both ends of the "
+                    "capacity) - the space of lengths is not enumerated" % len(cfgs))
     # longest first
     order = sorted(cfgs, key=lambda c: -(ref.total_codewords(c[1]) + c[3]))
     mp = multiprocessing.get_context("fork")
@@ -1493,6 +1506,7 @@ def c09_r3(ctx, f, rid="C09.R3"):
         return None
     _G["facts"] = f
     maxn = 8 if ctx.tier == "thorough" else 7
+    ctx.subset(rid, "class patterns enumerated completely up to length %d; longer inputs are not enumerated" % maxn)
     mp = multiprocessing.get_context("fork")
     with mp.Pool(min(maxn + 1, os.cpu_count() or 1)) as pool:
         res = pool.map(_scan_job, list(range(maxn, -1, -1)), chunksize=1)
@@ -1642,6 +1656,7 @@ def c12_r7(ctx, f, rid="C12.R7"):
     progs = _svg_programs()
     cfgs = []
     versions = (1, 2) if ctx.tier != "thorough" else (1, 2, 3, 7)
+    ctx.subset(rid, "SVG document evaluated on a lattice of (version, margin, layer program) configurations, every matrix content each")
     for v in versions:
         for margin in ((0, 4) if ctx.tier != "thorough" else (0, 1, 4, 9)):
             for pi in range(len(progs)):
@@ -1769,6 +1784,7 @@ def c11_r8(ctx, f, rid="C11.R8", report_d1=False):
         ctx.abstain(rid, "QRCode has fields the rule does not know", where_fn(fn))
         return None
     version, ecl = 5, "Q"
+    ctx.subset(rid, "18 oracle scenarios on one (version, level): the selection code does not depend on either beyond passing them on")
     placed = ("tok", ("placed", ("tok", ("blank", "V%02d" % version)), ("tok", ("codewords",))))
     groups = _Groups()
     und = _Und()
